@@ -65,4 +65,5 @@ bc0d713 C10
 8026e10 C09
 ba336bb C19 C10
 2d0f122 C16
+1adc0f1 C15
 LIST
